@@ -306,6 +306,7 @@ def run(prop: str, tier: str) -> int:
             if kx > 255:
                 inputs.append(b"$k = " + form + b"; " + call)          # the same out-of-range key met twice in a row
         # tokens that are hexadecimal in mixed letter case (all of them base64 characters too), with same-case runs inside
+        inputs += [b"FromHexString('6475636b20676F657320717561636b')", b"[System.Convert]::FromHexString('6475636B20676f657320717561636B6475')", b"fromhexstring('ABCDEFabcdef0123456789')"]
         for tok in (b"abcdef0123456789ABCDEF01", b"ABCD0123456789abcdef0123", b"deadbeefDEADBEEF0123456789ab", b"0123456789abcdefABCDEF0123456789", b"AbCdEf0123456789aBcDeF01"):
             inputs += [tok, b"id=" + tok + b";", b"x " + tok + b" y " + tok.swapcase()]
         for kx in (0, 35, 255, 300):
